@@ -1007,7 +1007,7 @@ func TestC44(t *testing.T) {
 	m.Assume("GnuPG 2.2.40 is a correct OpenPGP implementation; digests it refuses by policy for a key (shorter than DSA q / ECDSA curve size) are exercised package<->package only; ECDH and EdDSA keys are not implemented by the package and excluded; the packet walker (ref/pgpfmt) has its own framing tests and is cross-checked per message (literal body == plaintext); keys are fresh per process (gpg's and rsa.GenerateKey's randomness is not PRNG-controlled; messages, algorithms and mutations are); all clocks are faked")
 	ks, err := newKeyset()
 	if err != nil {
-		m.Inconclusive("gpg witness / key setup unavailable: " + err.Error())
+		reportSetupError(m, err)
 		return
 	}
 	defer ks.close()
